@@ -262,4 +262,35 @@ example : mapMerge .mergeTop (dataDom bvDom) exLeft exRight =
     [(0, ⟨8, [], some (.val 8 0), true⟩), (1, ⟨8, [], some (.top 8), false⟩),
      (2, ⟨8, [], some (.val 8 1), true⟩)] := by decide
 
+/-! ### non-vacuity for regions -/
+
+def exRegA : Region BvDom := [(0, .val 4 1), (8, .val 8 7)]
+def exRegB : Region BvDom := [(0, .val 4 1), (12, .val 4 9)]
+
+theorem exReg_wf (r : Region BvDom) (h : r = exRegA ∨ r = exRegB) :
+    RegionWF bvSized (fun _ => True) BvDom.wf r := by
+  letI := bvSized.valueDomain
+  rcases h with rfl | rfl
+  · refine ⟨⟨?_, ?_, ?_, ?_⟩, ?_, ?_, ?_⟩
+    · simp [BMap.Sorted, exRegA]
+    · simp [NoOverlap, exRegA, isize, ValueDomain.size, bvSized, BvDom.bytesize]
+    · intro c hc; simp [exRegA] at hc; rcases hc with rfl | rfl <;> simp [ValueDomain.size, bvSized, BvDom.bytesize]
+    · intro c hc; simp [exRegA] at hc; rcases hc with rfl | rfl <;> rfl
+    · intro c hc; simp [exRegA] at hc
+      rcases hc with rfl | rfl <;> simp [isize, ValueDomain.size, bvSized, BvDom.bytesize, i64Min, i64Max]
+    · intro c hc; simp [exRegA] at hc; rcases hc with rfl | rfl <;> rfl
+    · intro _ _; trivial
+  · refine ⟨⟨?_, ?_, ?_, ?_⟩, ?_, ?_, ?_⟩
+    · simp [BMap.Sorted, exRegB]
+    · simp [NoOverlap, exRegB, isize, ValueDomain.size, bvSized, BvDom.bytesize]
+    · intro c hc; simp [exRegB] at hc; rcases hc with rfl | rfl <;> simp [ValueDomain.size, bvSized, BvDom.bytesize]
+    · intro c hc; simp [exRegB] at hc; rcases hc with rfl | rfl <;> rfl
+    · intro c hc; simp [exRegB] at hc
+      rcases hc with rfl | rfl <;> simp [isize, ValueDomain.size, bvSized, BvDom.bytesize, i64Min, i64Max]
+    · intro c hc; simp [exRegB] at hc; rcases hc with rfl | rfl <;> rfl
+    · intro _ _; trivial
+
+-- the shared slot survives, the overlapping cells (8,8 bytes) and (12,4 bytes) are dropped
+example : memMerge bvSized exRegA exRegB = [(0, .val 4 1)] := by decide
+
 end CweModel.C03
